@@ -292,7 +292,7 @@ class Sim:
                 self._finish("deadlock", self._blocked_table())
                 return None
             if self.sig_fn is not None and len(self.state_sigs) < 20000:
-                self.state_sigs.add(self.sig_fn(self))
+                self.state_sigs.add(hash(self.sig_fn(self)))
             if len(opts) == 1:
                 pick = opts[0]
             else:
